@@ -53,8 +53,8 @@ def check(node: CallExpr, errors: list[Error]) -> None:
             mode = args = ""
 
             match rest:
-                case [StrExpr(value=value), *_]:
-                    mode = f'"{value}"'
+                case [StrExpr() as mode_node, *_]:
+                    mode = stringify(mode_node)
                     args = f", {mode}"
 
             inner = stringify(arg)
